@@ -362,6 +362,20 @@ def observe(case):
             else:
                 t = _mk_table(case["cols"])
             key = _mk_tkey(case["key"])
+            K = case["key"]
+            n = len(t)
+            if K[0] == "rows" and K[1][0] == "int" and n >= 2 and -n <= K[1][1] < n:
+                # the selected row is HELD while other rows of the same table are taken before and after it, and read
+                # only then: every t[i] is row i for as long as the table is not written (two results alive at once)
+                j = (K[1][1] + 1) % n
+                before = t[j]
+                r = t[key]
+                after = t[(j + 1) % n]
+                o = {"r": _tres(lambda: r), "dt0": [V.schema_obs(c.schema()) for c in t._underlying]}
+                fresh = _mk_table(case["cols"])
+                o["held_ok"] = (_tres(lambda: before) == _tres(lambda: fresh[j])
+                                and _tres(lambda: after) == _tres(lambda: fresh[(j + 1) % n]))
+                return o
             return {"r": _tres(lambda: t[key]), "dt0": [V.schema_obs(c.schema()) for c in t._underlying]}
         if op == "commute":
             t = _mk_table(case["cols"])
@@ -726,6 +740,9 @@ def oracle(case, obs):
     if op == "tab":
         K = case["key"]
         if K[0] == "rows":
+            if obs.get("held_ok") is False:
+                return (f"table-rows-held: a row taken by t[i] changed when another row of the same table was taken "
+                        f"(key {K[1]}, table {case['cols']})")
             return _check_rows("table-" + K[1][0], obs["r"], case["cols"], obs["dt0"], K[1])
         if K[0] == "names":
             return _check_names("table-names", obs["r"], case["cols"], obs["dt0"], K[1])
